@@ -278,6 +278,7 @@ def run_cli(script, args, stdin='pipe-open', input_bytes=None, timeout=120, env_
     snap = snapshot()
     env = dict(os.environ)
     env['PYTHONIOENCODING'] = 'utf-8'
+    env.pop('PYTHONUNBUFFERED', None)      # the consumer is a pipe: stdout is block-buffered, as it is under a cracker
     env['PYTHONHASHSEED'] = env.get('PYTHONHASHSEED', '0')
     env[GUARD] = '1'
     if env_extra:
@@ -346,6 +347,7 @@ def run_cli_quit(script, args, after_bytes=1, quit_line=b'q\n', timeout=120, env
     snap = snapshot()
     env = dict(os.environ)
     env['PYTHONIOENCODING'] = 'utf-8'
+    env.pop('PYTHONUNBUFFERED', None)      # the consumer is a pipe: stdout is block-buffered, as it is under a cracker
     env['PYTHONHASHSEED'] = env.get('PYTHONHASHSEED', '0')
     env[GUARD] = '1'
     if env_extra:
